@@ -179,6 +179,8 @@ def check_property(prop, tier, seed, jobs=None, only=None, verbose=False):
         print("no contract carries property %s" % prop)
         return 3
     known = load_known()
+    import shutil
+    shutil.rmtree(os.path.join(os.environ.get("PYVC_REPLAY_DIR", os.path.join(ROOT, "replays")), prop), ignore_errors=True)
 
     # anchors
     fn_hash = {}
@@ -363,6 +365,7 @@ def check_property(prop, tier, seed, jobs=None, only=None, verbose=False):
             "known_findings": [{"id": k[0]["id"], "what": k[0]["what"], "failing_obligations": k[1]}
                                for k in known_hits.values()],
             "covers_sat": sum(1 for r in results if r.get("covers")),
+            "failed_cases": [[r["contract"], ob["name"], r["params"]] for r, ob in failed][:200],
             "vacuous": vacuous[:10],
             "samples": samples,
             "evaluations": n_obl + n_bobl,
